@@ -58,6 +58,12 @@ func runC16P(r *simkit.Run, c Cfg) {
 	names := simkit.NewNamer()
 	names.Set(string(pw.recv.ID()), "R")
 	names.Set(string(pw.send.ID()), "S")
+	// the point inside the sender, between encoding a message and handing
+	// it to pubsub, is a scheduling point in half of the runs: Close, or the
+	// application shutting its pubsub down, can come between the two while
+	// a Direct call republishes
+	r.InstallHooks(names)
+	r.EnableSites(map[string]bool{"allow.call": true, "p2psend.publish": tp.Chance(1, 2, "midSend")})
 	holdWatcher := tp.Chance(3, 4, "holdWatcher")
 	allow := func(p peer.ID) bool {
 		if holdWatcher && p == pw.send.ID() {
